@@ -60,7 +60,8 @@ def props_of(d):
                 P.add("C07")
             if w >= 0 and (g == -1 or g > w):
                 P.add("C03")
-    if f.startswith("sweep"):
+    if f.startswith("sweep") or (f in ("ev.missing", "ev.async") and "Expiration" in (str(d.get("want", "")) + str(d.get("got", "")))):
+        # swept late, or the Expiration event of a removed entry not delivered (to one of the two handlers)
         P.add("C13")
     if f.startswith("saveload"):
         P.add("C19")
